@@ -44,7 +44,8 @@ def recOf : PC → Option Nat
   | .hProbe => none
   | .hWake _ => none
 
-/-- receiver control states in which the record may sit in a receiver queue in state WAITING -/
+/-- receiver control states in which the record may sit in a receiver queue in state WAITING (`arTry` / `arReg`:
+a `RecvFuture` that was polled again while still registered) -/
 def regAtR : PC → Option Nat
   | .idle => none
   | .done _ => none
@@ -74,8 +75,8 @@ def regAtR : PC → Option Nat
   | .asRef _ _ => none
   | .fdUnlS _ _ => none
   | .arNew _ => none
-  | .arTry _ => none
-  | .arReg _ => none
+  | .arTry r => some r
+  | .arReg r => some r
   | .arPend r => some r
   | .arUnl _ => none
   | .fdUnlR _ => none
@@ -117,7 +118,7 @@ def wokenRecv : PC → Option Nat
   | .fdUnlS _ _ => none
   | .arNew _ => none
   | .arTry r => some r
-  | .arReg _ => none
+  | .arReg r => some r
   | .arPend r => some r
   | .arUnl _ => none
   | .fdUnlR _ => none
@@ -212,7 +213,7 @@ def wokenSend : PC → Option Nat
   | .hProbe => none
   | .hWake _ => none
 
-/-- a `RecvFuture` inside `poll` whose record is not in the queue -/
+/-- a `RecvFuture` that was never polled: its record is not in the queue -/
 def unregA : PC → Option Nat
   | .idle => none
   | .done _ => none
@@ -242,8 +243,8 @@ def unregA : PC → Option Nat
   | .asRef _ _ => none
   | .fdUnlS _ _ => none
   | .arNew r => some r
-  | .arTry r => some r
-  | .arReg r => some r
+  | .arTry _ => none
+  | .arReg _ => none
   | .arPend _ => none
   | .arUnl _ => none
   | .fdUnlR _ => none
